@@ -379,6 +379,23 @@ NewChannelIsNew ==
 \* while the design holds, a client can always connect
 ListenerStaysUp == [][lsn = "listening" /\ ~Has("D1") => lsn' = "listening"]_vars
 
+\* ---- the same, unconditional: what the DESIGN promises.  Checked with Dev = {} (STRICT_MC_*.cfg: all hold) and
+\* against the behaviour of the pinned code (ACTUAL_MC_*.cfg: TLC shows how each deviation breaks its property)
+MembersLiveS == \A n \in AllNames : chan[n].mem \subseteq Live                                       \* D8
+TransportForgetsS == tmem = Live                                                                     \* D2
+TaskNeverDiesS == \A c \in Conns : cst[c] # "stuck"                                                  \* D3
+LeaveNeverCreatesS ==                                                                                \* D5
+  [][(last'.a = "Rx" /\ \A i \in DOMAIN last'.args.ms : last'.args.ms[i].k = "leave") =>
+       \A n \in AllNames : chan'[n].ex => chan[n].ex]_vars
+NewChannelIsNewS ==                                                                                  \* D4
+  [][(last'.a = "Rx" /\ Len(last'.args.ms) = 1 /\ last'.args.ms[1].k = "new") =>
+       \A n \in AllNames : (chan[n].ex => chan'[n].mem \subseteq chan[n].mem)]_vars
+NexusSeesDestroyS ==                                                                                 \* D6
+  [][\A n \in AllNames : Count(last'.exp.ev, "ChannelDestroy", "N", n, 0) =
+                          Count(last'.exp.ev, "ChannelDestroyed", "N", n, 0)]_vars
+ListenerComesUpS == [][last'.a = "Listen" => lsn' = "listening"]_vars                                \* D0
+ClientsCanConnectS == [][last'.a = "Open" => (cst'[last'.args.c] = "open" /\ lsn' = "listening")]_vars  \* D1, D2
+
 \* ---- export
 Bound == Len(hist) <= D
 Export == (Len(hist) = D) => PrintT(<<"H", ToJson(hist)>>)
